@@ -275,3 +275,7 @@ def check(prog: Program, rep):
     bounds_materialised(prog, RuleProxy(rep, "C16.R8"), "C12.R7")
     from rules.values import coefficients_converted
     coefficients_converted(prog, rep, "C16.R7", ["MinErrorFlow"])
+    from rules.values import python_arithmetic
+    if python_arithmetic(prog, rep, "C16.R7", [m for m in prog.cls("MinErrorFlow").methods.values()],
+                         "the bound of the variables (w_max * |E|) comes out too small or negative and the reported error is astronomically large") < 2:
+        raise AnalysisError("MinErrorFlow: the variable bound / the recomputed error were not found")
